@@ -1544,8 +1544,13 @@ class WBEMListener:
                 self._https_thread = None
 
         except Exception as exc:  # pylint: disable=broad-exception-caught
-            self.logger.error("Cleaning up callback thread due to exception "
-                              "%s: %s", exc.__class__.__name__, exc)
+            self.logger.error("Cleaning up listener threads and callback "
+                              "thread due to exception %s: %s",
+                              exc.__class__.__name__, exc)
+            # A listener thread that was already started (e.g. for HTTP when
+            # the HTTPS port is in use) must not keep accepting indications
+            # that can no longer be delivered.
+            self._stop_listener_threads()
             self._stop_indication_delivery(immediate=True)
             raise
 
